@@ -224,6 +224,7 @@ class Ctx:
         nshards = nshards or min(NCPU, max(1, len(histories) // 50))
         shards = shard(list(range(len(histories))), nshards)
         accepted_total = [0]
+        skipped = [0]
         reports = []
 
         def run_shard(si, idxs, tagx=""):
@@ -293,6 +294,8 @@ class Ctx:
                     v.matched + 1 - cnt - (1 if bad else 0), v.violated or "no enabled spec action matches the recorded call/result"), None))
                 accepted_total[0] += bad
                 idxs = idxs[bad + 1:]
+            if idxs and rounds >= 6:
+                skipped[0] += len(idxs)      # too many failing histories in this shard: the remainder was not examined
 
         t_ev = time.time()
         with ThreadPoolExecutor(max_workers=min(NCPU, len(shards))) as ex:
@@ -339,6 +342,12 @@ class Ctx:
                 self.save("%s-%d.sched.replay.json" % (label, hi), json.dumps(info, indent=1))
                 self.violation(why.split("\n")[0][:300], d)
         self.cov["traces_validated_against_impl"] += accepted_total[0]
+        if skipped[0]:
+            self.cov["histories_not_examined"] = self.cov.get("histories_not_examined", 0) + skipped[0]
+            self.notes.append("%s: %d histories were not examined (more than 6 failing histories in a shard)" % (label, skipped[0]))
+            if not reports or all(True for _ in reports) and nrep == 0:
+                # nothing was confirmed, yet shards kept failing: that is a machinery problem, not a verdict
+                raise Infra("%s: %d histories could not be examined and no rejection was confirmed (harness / TLC failing repeatedly)" % (label, skipped[0]))
         return accepted_total[0]
 
     # -------------------------------------------------------------- running
